@@ -2490,6 +2490,10 @@ impl Translator {
                 self.emit(st, Instr::EqualInt(Reg::Top, Reg::Top, Reg::Top));
                 self.emit(st, Instr::JumpIfFalse(end_label_iter.clone()));
                 let mut or_pat_decisions = HashSet::default();
+                if self.get_ty(mono, pat.node()).unwrap() == SolvedType::Void {
+                    // the payload of `some(nil)` is only a placeholder; void patterns consume nothing
+                    self.emit(st, Instr::Pop);
+                }
                 self.handle_pat_binding(pat, offset_table, st, mono, &mut or_pat_decisions);
                 st.loop_stack.push(EnclosingLoop {
                     start_label: start_label.clone(),
@@ -2747,6 +2751,10 @@ impl Translator {
                             self.emit(st, Instr::DeconstructVariant);
                             // pop tag
                             self.emit(st, Instr::Pop);
+                            if self.get_ty(mono, inner.node()).unwrap() == SolvedType::Void {
+                                // a void payload is only a placeholder; void patterns consume nothing
+                                self.emit(st, Instr::Pop);
+                            }
                             self.handle_pat_binding(inner, locals, st, mono, or_pat_decisions);
                         } else {
                             void_case();
